@@ -51,6 +51,10 @@ class DensityEstimator(ABC):
         # switch variables to the centre and width of the interval
         c = 0.5 * (lwr + upr)
         w = upr - lwr
+        # the search below only converges to the highest-density interval if it
+        # starts from an interval which contains the mode
+        if not lwr < self.mode < upr:
+            c = self.mode
 
         simplex = array([[c, w], [c, 0.95 * w], [c - 0.05 * w, w]])
         weight = 0.2 / self(self.mode)
